@@ -267,10 +267,13 @@ func schemes(seed int64, w *bufio.Writer) {
 		fmt.Fprintf(w, "random|bits|%d|%x|%x\n", bl, random.Bits(bl, false, rs), random.Bits(bl, true, rs))
 	}
 	// XOFs
-	for name, x := range map[string]kyber.XOF{"blake2xb": blake2xb.New([]byte("seed")), "blake2xs": blake2xs.New([]byte("seed")), "keccak": keccak.New([]byte("seed"))} {
+	for _, nx := range []struct {
+		name string
+		x    kyber.XOF
+	}{{"blake2xb", blake2xb.New([]byte("seed"))}, {"blake2xs", blake2xs.New([]byte("seed"))}, {"keccak", keccak.New([]byte("seed"))}} {
 		buf := make([]byte, 100)
-		_, _ = x.Read(buf)
-		fmt.Fprintf(w, "xof|%s|%x\n", name, buf)
+		_, _ = nx.x.Read(buf)
+		fmt.Fprintf(w, "xof|%s|%x\n", nx.name, buf)
 	}
 	// Ed25519: Schnorr with a seeded stream, EdDSA, Shamir sharing
 	suite := edwards25519.NewBlakeSHA256Ed25519WithRand(st("schnorr"))
